@@ -128,7 +128,7 @@ Proof. destruct fuel; reflexivity. Qed.
 Lemma lookup_In n l m : lookup n l = Some m -> In m l.
 Proof.
   induction l as [|a l IH]; simpl; [discriminate|].
-  destruct (String.eqb n (m_name a)); [intros [= <-]; now left | intros H; right; auto].
+  destruct (mname_eqb n (m_name a)); [intros [= <-]; now left | intros H; right; auto].
 Qed.
 
 Lemma select_In e alts d : select e alts = Some d -> exists p, In (p, d) alts.
@@ -158,11 +158,37 @@ Qed.
 
 (* ---------------------------------------------------------------------------------------------- *)
 (* invariance in the compile-time level                                                             *)
+Lemma eval_cmp_inv o k x y : agree (cmp_thr o k) x y -> eval_cmp o x k = eval_cmp o y k.
+Proof.
+  intros H. unfold agree in H.
+  destruct o; simpl in *.
+  - apply H; auto.
+  - pose proof (H (k + 1) (or_introl eq_refl)) as H1. rewrite !Z.geb_leb in H1.
+    destruct (Z.gtb_spec x k), (Z.gtb_spec y k); auto;
+      destruct (Z.leb_spec (k + 1) x), (Z.leb_spec (k + 1) y); try discriminate; lia.
+  - pose proof (H (k + 1) (or_introl eq_refl)) as H1. rewrite !Z.geb_leb in H1.
+    destruct (Z.leb_spec x k), (Z.leb_spec y k); auto;
+      destruct (Z.leb_spec (k + 1) x), (Z.leb_spec (k + 1) y); try discriminate; lia.
+  - pose proof (H k (or_introl eq_refl)) as H1. rewrite !Z.geb_leb in H1.
+    destruct (Z.ltb_spec x k), (Z.ltb_spec y k); auto;
+      destruct (Z.leb_spec k x), (Z.leb_spec k y); try discriminate; lia.
+  - pose proof (H k (or_introl eq_refl)) as H1. pose proof (H (k + 1) (or_intror (or_introl eq_refl))) as H2.
+    rewrite !Z.geb_leb in H1, H2.
+    destruct (Z.eqb_spec x k), (Z.eqb_spec y k); auto;
+      destruct (Z.leb_spec k x), (Z.leb_spec k y), (Z.leb_spec (k + 1) x), (Z.leb_spec (k + 1) y);
+      try discriminate; lia.
+  - pose proof (H k (or_introl eq_refl)) as H1. pose proof (H (k + 1) (or_intror (or_introl eq_refl))) as H2.
+    rewrite !Z.geb_leb in H1, H2. f_equal.
+    destruct (Z.eqb_spec x k), (Z.eqb_spec y k); auto;
+      destruct (Z.leb_spec k x), (Z.leb_spec k y), (Z.leb_spec (k + 1) x), (Z.leb_spec (k + 1) y);
+      try discriminate; lia.
+Qed.
+
 Lemma eval_atom_inv ks c c' fl gn a :
   agree ks c c' -> incl (atom_thr a) ks -> eval_atom (mk_env c fl gn) a = eval_atom (mk_env c' fl gn) a.
 Proof.
   intros Ha Hi. destruct a; simpl; auto.
-  rewrite (Ha k); auto. apply Hi. simpl. auto.
+  rewrite (eval_cmp_inv o k c c'); auto. eapply agree_incl; eauto.
 Qed.
 
 Lemma eval_path_inv ks c c' fl gn p :
@@ -215,7 +241,7 @@ Qed.
 (* ---------------------------------------------------------------------------------------------- *)
 (* invariance in the runtime level                                                                  *)
 Lemma eval_rcond_inv r r' rc : agree (rcond_thr rc) r r' -> eval_rcond r rc = eval_rcond r' rc.
-Proof. destruct rc; simpl; auto. intros H. apply H. simpl. auto. Qed.
+Proof. destruct rc; simpl; auto. apply eval_cmp_inv. Qed.
 
 Lemma prim_model_inv p r r' si na co : prim_model p (mk_rt r si na co) = prim_model p (mk_rt r' si na co).
 Proof. destruct p; reflexivity. Qed.
@@ -349,12 +375,21 @@ Proof.
   exact (check_macro_sound l (n, k) (H _ Hin)).
 Qed.
 
+Lemma bytes_eqb_eq a b : bytes_eqb a b = true -> a = b.
+Proof.
+  revert b. induction a as [|x a IH]; destruct b as [|y b]; simpl; try discriminate; auto.
+  intros H. apply andb_prop in H. destruct H as (H1 & H2).
+  apply Byte.byte_dec_bl in H1. subst. f_equal. auto.
+Qed.
+Lemma mname_eqb_eq a b : mname_eqb a b = true -> a = b.
+Proof. destruct a, b. unfold mname_eqb. simpl. intros H. f_equal. now apply bytes_eqb_eq. Qed.
+
 Theorem check_cover_sound l cl :
   check_cover l cl = true -> forall m, In m l -> exists k, In (m_name m, k) cl.
 Proof.
   unfold check_cover. intros H m Hm. rewrite forallb_forall in H. specialize (H m Hm).
   apply existsb_exists in H. destruct H as ([n k] & Hin & He). simpl in He.
-  apply String.eqb_eq in He. subst. now exists k.
+  apply mname_eqb_eq in He. subst. now exists k.
 Qed.
 
 Lemma reached_inv l m c c' fl gn :
@@ -386,8 +421,8 @@ Proof. unfold check_levels. intros H d Hd. rewrite forallb_forall in H. apply Z.
 
 (* membership of each family in the classification *)
 Section Classify.
-  Variables (hdr : list string) (asrt nr req : list (string * bool)) (ab : list string)
-            (dp : list (string * Z)) (dpp nev : list string) (ds : list dfam).
+  Variables (hdr : list mname) (asrt nr req : list (mname * bool)) (ab : list mname)
+            (dp : list (mname * Z)) (dpp nev : list mname) (ds : list dfam).
   Let cl := classify hdr asrt nr req ab dp dpp nev ds.
   Ltac skip1 := apply in_or_app; right.
   Lemma cl_hdr n : In n hdr -> In (n, KHdr) cl.
